@@ -442,7 +442,17 @@ def resolve(model: RefDir, op):
         s = _pick(syms, r[0])
         if s is None:
             return None
-        form = r[1] % 4
+        form = r[1] % 5
+        if form == 4:
+            # a derived type of a fresh dimension whose reference symbol is
+            # taken: rejected, and the dimension must stay available
+            act = resolve(model, ['derived_type'] + r[2:12] + [0, 0])
+            if act is None or act['expect'] == 'reject' or \
+                    not (act['ref_sym'] or act['auto_ref']):
+                return None
+            act.update(ref_sym=s, auto_ref=False, expect='reject',
+                       bad='dup_symbol')
+            return act
         if form == 0:       # a new base type whose reference unit is taken
             return {'a': 'base_type', 'name': f'T{n}', 'ref_sym': s,
                     'quantum': None, 'expect': 'reject', 'bad': 'dup_symbol'}
